@@ -422,7 +422,9 @@ class HttpCommunicationLayer(CommunicationLayer):
                     "dest-comp": msg.dest_comp,
                     "type": str(msg.msg_type),
                 },
-                json=msg_repr,
+                # requests' own json encoder rejects infinite values, which
+                # several algorithms use as initial bounds.
+                data=json.dumps(msg_repr),
                 timeout=0.5,
             )
         except ConnectionError:
